@@ -1504,6 +1504,102 @@ fn rand_script(r: &Rng, npk: usize, pids: &[u16]) -> String {
     s
 }
 
+/// construct script: changes queued from inside `construct(ByPid(pid))` for some of the stream's PIDs
+fn rand_cscript(r: &Rng, pids: &[u16]) -> String {
+    let mut s = String::new();
+    let mut ps: Vec<u16> = (0..(1 + r.below(3))).map(|_| pids[r.below(pids.len() as u64) as usize]).collect();
+    ps.sort(); ps.dedup();
+    for p in ps {
+        let ops: Vec<String> = (0..(1 + r.below(3))).map(|_| {
+            let pid = match r.below(6) {
+                0 => r.below(0x2000) as u16,
+                1 => (pids[r.below(pids.len() as u64) as usize] + 1).min(0x1fff),
+                2 => p,
+                _ => pids[r.below(pids.len() as u64) as usize],
+            };
+            if r.chance(1, 2) { format!("i{}", pid) } else { format!("r{}", pid) }
+        }).collect();
+        s.push_str(&format!(";c{}:{}", p, ops.join(",")));
+    }
+    s
+}
+
+/// streams where the first packet of a PID (the one that makes the dispatcher call `construct`) is
+/// often dropped (TEI / scrambled), so that what `construct` queued stays pending across dropped
+/// packets, PID changes and the end of a push
+fn cscript_stream(r: &Rng, npk: usize) -> Vec<Vec<u8>> {
+    let pool: Vec<u16> = distinct_pids(r, 2 + r.below(4) as usize, &[0]);
+    let mut seen: Vec<u16> = vec![];
+    let mut pkts = vec![];
+    let mut cc = std::collections::HashMap::new();
+    while pkts.len() < npk {
+        let pid = pool[r.below(pool.len() as u64) as usize];
+        for _ in 0..(1 + r.below(3)) {
+            let c = cc.entry(pid).or_insert(0u8);
+            let mut p = mk_pkt(r, pid, false, *c, &r.bytes(184), false);
+            *c = (*c + 1) & 15;
+            let first = !seen.contains(&pid);
+            if first { seen.push(pid); }
+            if (first && r.chance(2, 3)) || r.chance(1, 6) {
+                if r.chance(1, 2) { p[1] |= 0x80 } else { p[3] |= 0x80 }
+            }
+            pkts.push(p);
+        }
+    }
+    pkts.truncate(npk);
+    pkts
+}
+
+/// `cutsq` / `demuxq` cases: an application whose `construct` queues changes
+fn gen_construct_queues(tier: &str, r: &Rng, o: &mut Out<'_>) {
+    let thorough = tier == "thorough";
+    let nstreams = if thorough { 400 } else { 60 };
+    for i in 0..nstreams {
+        let n = 2 + (i % 8);
+        let pkts = cscript_stream(r, n);
+        let pids = pids_of(&pkts);
+        let cfg = format!("b0t0{}{}", if i % 3 == 0 { rand_script(r, n, &pids) } else { String::new() }, rand_cscript(r, &pids));
+        let masks: Vec<String> = (0..(1u32 << (n - 1))).map(|m| format!("{:x}", m)).collect();
+        o.d(&format!("cutsq {} {} {}", cfg, hex(&concat(&pkts)), masks.join(",")));
+    }
+    let nl = if thorough { 20_000 } else { 400 };
+    for i in 0..nl {
+        let n = 3 + r.below(30) as usize;
+        let pkts = if i % 4 == 0 { dispatcher_stream(r, n, true) } else { cscript_stream(r, n) };
+        let pids = pids_of(&pkts);
+        let cfg = format!("b0t0{}{}", if i % 2 == 0 { rand_script(r, n, &pids) } else { String::new() }, rand_cscript(r, &pids));
+        let pushes = if r.chance(1, 3) { vec![concat(&pkts)] } else { rand_pushes(r, &pkts) };
+        let line = format!("demuxq {} {}", cfg, pushes.iter().map(|p| hex(p)).collect::<Vec<_>>().join(" "));
+        o.d(&line);
+    }
+    // targeted: PID 0x200's handler is requested by a dropped packet; its construct queues the removal of 0x201's handler
+    // / an insert for 0x202; the next consumed packet is on 0x201 / 0x202; every chunking
+    let a = 0x200u16; let b = 0x201u16; let c = 0x202u16;
+    for (cfg, pids, drop) in [
+        ("b0t0;c512:r513", vec![b, a, b, b], vec![1usize]),
+        ("b0t0;c512:i514", vec![a, c, c], vec![0]),
+        ("b0t0;c512:i514", vec![a, a, c, c], vec![0, 1]),
+        ("b0t0;c512:r512", vec![a, a, a], vec![0]),
+        ("b0t0;c512:i512", vec![a, a, a], vec![0]),
+        ("b0t0;c512:i513,r513", vec![a, b, b], vec![0]),
+        ("b0t0;c512:i514;1:r514", vec![a, b, c, c], vec![0]),
+        ("b0t0;c0:i513", vec![b, b], vec![]),
+        ("b0t0;c512:r513", vec![b, a], vec![1]),
+    ] {
+        let pk: Vec<Vec<u8>> = pids.iter().enumerate().map(|(i, &p)| {
+            let mut x = mk_pkt(r, p, false, i as u8 & 15, &r.bytes(184), false);
+            if drop.contains(&i) { x[1] |= 0x80; }
+            x
+        }).collect();
+        let n = pk.len();
+        let masks: Vec<String> = (0..(1u32 << (n - 1))).map(|m| format!("{:x}", m)).collect();
+        o.d(&format!("cutsq {} {} {}", cfg, hex(&concat(&pk)), masks.join(",")));
+        o.d(&format!("demuxq {} {}", cfg, hex(&concat(&pk))));
+        o.d(&format!("demuxq {} {}", cfg, pk.iter().map(|p| hex(p)).collect::<Vec<_>>().join(" ")));
+    }
+    o.meta("construct_queues", "applications whose construct() queues changes: pending across dropped packets / PID changes / push boundaries (cutsq: all chunkings; demuxq: traces)");
+}
+
 fn pids_of(pkts: &[Vec<u8>]) -> Vec<u16> {
     let mut v: Vec<u16> = pkts.iter().map(|p| (((p[1] & 0x1f) as u16) << 8) | p[2] as u16).collect();
     v.sort(); v.dedup(); v
@@ -1600,6 +1696,7 @@ fn gen_c07(tier: &str, r: &Rng, o: &mut Out<'_>) {
         let masks: Vec<String> = (0..6).map(|_| { let mut s = String::new(); for _ in 0..((n + 3) / 4) { s.push_str(&format!("{:x}", r.below(16))); } s }).collect();
         o.d(&format!("cuts {} {} {}", cfg, hex(&concat(&pkts)), masks.join(",")));
     }
+    gen_construct_queues(tier, r, o);
     o.meta("exhaustive", &format!("all 2^(n-1) chunkings of {} streams with n <= {}", nstreams, maxn));
 }
 
@@ -2284,9 +2381,64 @@ fn gen_c19(tier: &str, r: &Rng, o: &mut Out<'_>) {
     }
     // zero-copy: ES payload ranges and single-packet sections are sub-slices of the pushed buffer
     let nz = if thorough { 10_000 } else { 400 };
-    for _ in 0..nz {
+    for i in 0..nz {
         let pkts = wf_mux(r, 1 + r.below(2) as usize, 3, 2, 400, true);
-        emit(o, true, "b0t0", &rand_pushes(r, &pkts));
+        if i % 4 == 3 {
+            // pushes cut at arbitrary BYTE offsets: the packet a cut falls in is not reassembled (and
+            // never copied): `chunks_exact` drops the incomplete tail of a push (seeded change C19-r11m2)
+            let all = concat(&pkts);
+            let mut pushes = vec![];
+            let mut at = 0usize;
+            while at < all.len() {
+                let step = if r.chance(1, 3) { 188 * (1 + r.below(6) as usize) } else { 1 + r.below(188 * 5) as usize };
+                let e = (at + step).min(all.len());
+                pushes.push(all[at..e].to_vec());
+                at = e;
+            }
+            emit(o, true, "b0t0", &pushes);
+        } else {
+            emit(o, true, "b0t0", &rand_pushes(r, &pkts));
+        }
+    }
+    // PES packets whose unit-start packet carries only 1..=8 payload bytes (a long adaptation field):
+    // the header does not fit, nothing may be stitched together on the heap (seeded change C19-r11m3);
+    // as demux traces and in steady state
+    let ny = if thorough { 3_000 } else { 120 };
+    for i in 0..ny {
+        let mut m = Mux::new(r);
+        let mut used = vec![0u16, 0x1fff];
+        let progs = rand_progs(r, 1, 3, &mut used);
+        let pat = pat_section(5, r.byte() & 31, &pat_of(&progs, None));
+        let mut warm = m.section(0, &pat, &plan_for(r, &pat));
+        for p in progs.iter() { let s = pmt_of(p); warm.extend(m.section(p.pmt_pid, &s, &plan_for(r, &s))); }
+        let es: Vec<u16> = progs.iter().flat_map(|p| p.streams.iter().filter(|(st, _, _)| PES_TYPES.contains(st)).map(|(_, pid, _)| *pid)).collect();
+        if es.is_empty() { continue; }
+        let tiny = |m: &mut Mux<'_>, pid: u16| -> Vec<Vec<u8>> {
+            let (b, _hl) = pes_bytes(r, &rand_pes(r, 300));
+            let k = (1 + r.below(8) as usize).min(b.len());
+            let mut v = vec![m.raw(pid, true, &b[..k])];
+            let mut at = k;
+            while at < b.len() { let e = (at + 1 + r.below(184) as usize).min(b.len()); v.push(m.raw(pid, false, &b[at..e])); at = e; }
+            v
+        };
+        for &pid in es.iter() { warm.extend(m.pes(pid, &rand_pes(r, 300), false)); warm.extend(tiny(&mut m, pid)); }
+        let mut pushes = vec![concat(&warm)];
+        for _ in 0..(1 + r.below(3)) {
+            let mut q = vec![];
+            for &pid in es.iter() {
+                for _ in 0..(1 + r.below(3)) {
+                    if r.chance(1, 2) { q.extend(tiny(&mut m, pid)); } else { q.extend(m.pes(pid, &rand_pes(r, 400), false)); }
+                }
+            }
+            pushes.push(concat(&q));
+        }
+        if i % 2 == 0 {
+            let id = o.d(&format!("steady b0t0 {}", pushes.iter().map(|p| hex(p)).collect::<Vec<_>>().join(" ")));
+            let zeros = vec!["0"; pushes.len() - 1].join(",");
+            o.expect(&id, &format!("allocs={} constructs={} copied=0", zeros, zeros));
+        } else {
+            emit(o, true, "b0t0", &pushes);
+        }
     }
     for &syntax in [true, false].iter() {
         for sl in (0..=180usize).step_by(if thorough { 1 } else { 7 }) {
